@@ -6,6 +6,8 @@ from ..report import Report
 def run(tier, seed):
     rep = Report("C04", tier, seed, "other")
     deductive(rep, "C04", ["markdown_it.rules_block.html_block.html_block"], "contracts.block")
+    import contracts.rxrules as RXR
+    deductive(rep, "C04", [RXR.QH], "contracts.rxrules")
     import contracts.emph as EM
     deductive(rep, "C04", [EM.QS], "contracts.emph")
     try:
